@@ -222,6 +222,15 @@ func CoqZ(z int64) string {
 	return fmt.Sprintf("%d", z)
 }
 func CoqN(n uint64) string { return fmt.Sprintf("%d", n) }
+
+// ZS / NS: the same with an explicit scope delimiter (for positions whose expected type does not bind a scope, e.g. tuples)
+func ZS(z int64) string {
+	if z < 0 {
+		return fmt.Sprintf("(%d)%%Z", z)
+	}
+	return fmt.Sprintf("%d%%Z", z)
+}
+func NS(n uint64) string { return fmt.Sprintf("%d%%N", n) }
 func CoqBool(b bool) string {
 	if b {
 		return "true"
